@@ -28,7 +28,7 @@ ckd_fail).
 """
 import re
 
-from .. import paths
+from .. import lin, paths
 from ..prog import AnalysisIncomplete
 
 LOADER_UNITS = ("s3file.c", "bin_mdef.c", "mdef.c", "ms_gauden.c", "ms_senone.c", "ms_mgau.c", "ptm_mgau.c",
@@ -1006,6 +1006,63 @@ def _region_tests(f):
     return out
 
 
+def _pointee_size(P, t):
+    t = t.replace("const ", "").strip()
+    if not t.endswith("*"):
+        return None
+    b = t[:-1].strip()
+    for k_, v_ in (("unsigned char", 1), ("signed char", 1), ("char", 1), ("unsigned short", 2), ("short", 2), ("unsigned int", 4), ("int", 4), ("float", 4), ("double", 8), ("unsigned long", 8), ("long", 8)):
+        if b == k_:
+            return v_
+    if b.startswith("struct "):
+        rec = P.records.get(b[len("struct "):])
+        if rec and rec.get("size"):
+            return rec["size"]
+    if b.endswith("*"):
+        return 8
+    return None
+
+
+def _byte_region_tests(f):
+    """tests of the form  N <= END - (char *)X  (any spelling of the comparison): yields
+    (relational node, N node, X node (the region pointer in its own type), polarity on which the test holds)"""
+    out = []
+    seen = set()
+
+    def deep(n_):
+        k_ = 0
+        n_ = f.strip(n_)
+        while f.k(n_) == "DeclRef" and f.nodes[n_].get("ref") in ("local", "param") and k_ < 6:
+            v_ = f.rd.unique_def_value(n_)
+            if v_ is None:
+                break
+            n_ = f.strip(v_)
+            k_ += 1
+        return n_
+    for (s0, d0, c, pol) in f.cfg.cond_edges():
+        j = f.strip(c)
+        if j in seen:
+            continue
+        nd = f.nodes[j]
+        if nd["k"] != "Bin" or nd["op"] not in ("<", ">", "<=", ">="):
+            continue
+        a, b = nd["ch"]
+        for (nside, dside, op) in ((a, b, nd["op"]), (b, a, {"<": ">", ">": "<", "<=": ">=", ">=": "<="}[nd["op"]])):
+            dj = f.strip(dside)
+            dn = f.nodes[dj]
+            if dn["k"] != "Bin" or dn["op"] != "-":
+                continue
+            if not _is_end(f, dn["ch"][0]):
+                continue
+            x = deep(dn["ch"][1])
+            if "*" not in f.nodes[x].get("ct", f.nodes[x].get("t", "")):
+                continue
+            seen.add(j)
+            # nside OP (END - X): holds when OP is <= / <   (true polarity), fails otherwise
+            out.append((c, nside, x, op in ("<=", "<")))
+    return out
+
+
 def region_rule(ctx, P, fns):
     r = ctx.rule("REGION.end", "a truncation test `region + count > end` computes the end of the region in the element type in which the region is laid out: the same base + count elsewhere in the function (start of the next region, loop limit) has the same pointer type", floor=4)
     r2 = ctx.rule("REGION.checked", "a region pointer that is tested against the end of the file's data is tested on every path before it is dereferenced: no configuration (byte order, allocation mode) reaches an element access without having passed the test", floor=4)
@@ -1035,6 +1092,34 @@ def region_rule(ctx, P, fns):
                 continue
             bad = [(j, t2) for (j, t2) in others if t2 != t]
             ctx.check(r, not bad, key(f, "end-of:%s" % "+".join(sorted(ops))[:40]), f.where(i), "the truncation test computes `%s` as `%s` but the region is laid out as `%s` (line %s): the test measures the region in the wrong unit" % (" + ".join(sorted(ops)), t, bad[0][1] if bad else "", f.line(bad[0][0]) if bad else ""))
+        # the same test counted in bytes: `nbytes <= end - (char *)region` - the byte count is a multiple of
+        # the size of what the region holds, and every element access lies behind the test
+        for (c, nside, xnode, pol_pass) in _byte_region_tests(f):
+            ctx.touch(f)
+            pc = f.canon(xnode, subst=False)
+            esz = _pointee_size(P, f.nodes[xnode].get("ct", f.nodes[xnode].get("t", "")))
+            pl = lin.poly(f, nside)
+            okb = esz is not None and bool(pl) and all(cf % esz == 0 for cf in pl.values())
+            ctx.check(r, okb, key(f, "bytes-of:%s" % pc[:40]), f.where(c), "the truncation test requires `%s` bytes for the region `%s`, whose elements are %s bytes each: the count is taken in the wrong unit, so a file cut inside the region passes the test" % (f.canon(nside), pc, esz))
+            defs = [s_ for s_ in paths.stores(f) if s_["path"] == pc and s_["op"] == "=" and paths.always_before(f, c, lambda e, n_=s_["node"]: e == n_)]
+            if not defs:
+                continue
+            start = defs[-1]["node"]
+            cj = f.strip(c)
+
+            def passed_b(fn, cc, pol, cj=cj, pol_pass=pol_pass):
+                return fn.strip(cc) == cj and pol == pol_pass
+            uses = []
+            for u in f.walk():
+                un = f.nodes[u]
+                if un["k"] == "Subscript" or (un["k"] == "Un" and un["op"] == "*") or (un["k"] == "Member" and un.get("arrow")):
+                    b0 = f.strip(f.ch(u)[0])
+                    if f.canon(b0, subst=False) == pc and u not in f.walk(c) and "inl" not in un:
+                        uses.append(u)
+            if not uses:
+                continue
+            bad = [u for u in uses if f.cfg.path_exists(paths.pos_of(f, start), lambda e, u=u: e == u or u in f.walk(e), removed_edges=set(paths.guard_edges(f, passed_b)))]
+            ctx.check(r2, not bad, key(f, "checked:%s" % pc), f.where(bad[0] if bad else c), "`%s` is read at line %s on a path that has not passed the truncation test at line %s" % (pc, f.line(bad[0]) if bad else "", f.line(c)))
         # every element access through a tested region pointer lies behind its test
         for c, sums in conds.items():
             for (i, nd) in sums:
